@@ -20,8 +20,8 @@
 (***************************************************************************)
 EXTENDS Integers, Sequences, FiniteSets, TLC
 CONSTANTS MaxN
-VARIABLES op, n, shape, fault, src, dst, outside, touched, k, stage, ret, handle
-vars == <<op, n, shape, fault, src, dst, outside, touched, k, stage, ret, handle>>
+VARIABLES op, n, shape, fault, src, dst, outside, touched, k, stage, ret, handle, dest
+vars == <<op, n, shape, fault, src, dst, outside, touched, k, stage, ret, handle, dest>>
 
 Stages(o) == IF o = "copy" THEN {"open", "create", "write", "close"} ELSE {"syscall"}
 \* fault = [at |-> file index or -1 for none, stage |-> step of that file that fails]
@@ -35,6 +35,7 @@ Init == /\ op \in {"copy", "move", "remove"}
         /\ outside = [i \in 1..n |-> IF shape[i] = "outside" THEN "full" ELSE "none"]
         /\ touched = FALSE
         /\ k = -1 /\ stage = "validate" /\ ret = "none" /\ handle = "src"
+        /\ dest \in {"dir", "file"}                   \* what the caller names as destination: a directory, or a regular file
 
 \* order of work: listed files 1..n, then the control file 0
 NextFile(i) == IF i = -1 THEN (IF n >= 1 THEN 1 ELSE 0) ELSE IF i = 0 THEN -2 ELSE IF i < n THEN i + 1 ELSE 0
@@ -44,10 +45,10 @@ Unchanged(S) == UNCHANGED S
 
 \* (after fix) listed names that are not plain file names are refused before anything is touched
 Validate == /\ stage = "validate"
-            /\ IF \E i \in 1..n : shape[i] # "plain"
+            /\ IF (op # "remove" /\ dest = "file") \/ \E i \in 1..n : shape[i] # "plain"
                THEN ret' = "err" /\ stage' = "done" /\ UNCHANGED k
                ELSE k' = First /\ stage' = (IF op = "copy" THEN "open" ELSE "syscall") /\ UNCHANGED ret
-            /\ UNCHANGED <<op, n, shape, fault, src, dst, outside, touched, handle>>
+            /\ UNCHANGED <<op, n, shape, fault, src, dst, outside, touched, handle, dest>>
 
 Abort == ret' = "err" /\ stage' = "done"
 Advance == LET j == NextFile(k) IN
@@ -58,37 +59,37 @@ Advance == LET j == NextFile(k) IN
 \* ---- copy: open source, create destination (visible, empty), write, close ----
 COpen == /\ op = "copy" /\ stage = "open"
          /\ IF Fails(k, "open") THEN Abort /\ UNCHANGED k ELSE stage' = "create" /\ UNCHANGED <<k, ret>>
-         /\ UNCHANGED <<op, n, shape, fault, src, dst, outside, touched, handle>>
+         /\ UNCHANGED <<op, n, shape, fault, src, dst, outside, touched, handle, dest>>
 CCreate == /\ op = "copy" /\ stage = "create"
            /\ IF Fails(k, "create") THEN Abort /\ UNCHANGED <<k, dst>>
               ELSE dst' = [dst EXCEPT ![k] = "empty"] /\ stage' = "write" /\ UNCHANGED <<k, ret>>
-           /\ UNCHANGED <<op, n, shape, fault, src, outside, touched, handle>>
+           /\ UNCHANGED <<op, n, shape, fault, src, outside, touched, handle, dest>>
 CWrite == /\ op = "copy" /\ stage = "write"
           /\ IF Fails(k, "write")
              THEN /\ dst' = [dst EXCEPT ![k] = "partial"]
                   /\ IF k = 0 THEN stage' = "cleanup" /\ UNCHANGED ret ELSE Abort
              ELSE dst' = [dst EXCEPT ![k] = "full"] /\ stage' = "close" /\ UNCHANGED ret
-          /\ UNCHANGED <<op, n, shape, fault, src, outside, touched, k, handle>>
+          /\ UNCHANGED <<op, n, shape, fault, src, outside, touched, k, handle, dest>>
 CClose == /\ op = "copy" /\ stage = "close"
           /\ IF Fails(k, "close")
              THEN (IF k = 0 THEN stage' = "cleanup" /\ UNCHANGED <<ret, k, handle>> ELSE Abort /\ UNCHANGED <<k, handle>>)
              ELSE Advance
-          /\ UNCHANGED <<op, n, shape, fault, src, dst, outside, touched>>
+          /\ UNCHANGED <<op, n, shape, fault, src, dst, outside, touched, dest>>
 \* (after fix) a failed copy of the control file itself is removed from the destination
 CCleanup == /\ op = "copy" /\ stage = "cleanup"
             /\ dst' = [dst EXCEPT ![0] = "absent"] /\ Abort
-            /\ UNCHANGED <<op, n, shape, fault, src, outside, touched, k, handle>>
+            /\ UNCHANGED <<op, n, shape, fault, src, outside, touched, k, handle, dest>>
 
 \* ---- move: one rename per file ---------------------------------------------------
 MRename == /\ op = "move" /\ stage = "syscall"
            /\ IF Fails(k, "syscall") THEN Abort /\ UNCHANGED <<src, dst, k, handle>>
               ELSE /\ src' = [src EXCEPT ![k] = "absent"] /\ dst' = [dst EXCEPT ![k] = "full"] /\ Advance
-           /\ UNCHANGED <<op, n, shape, fault, outside, touched>>
+           /\ UNCHANGED <<op, n, shape, fault, outside, touched, dest>>
 \* ---- remove: one unlink per file ---------------------------------------------------
 RUnlink == /\ op = "remove" /\ stage = "syscall"
            /\ IF Fails(k, "syscall") THEN Abort /\ UNCHANGED <<src, k, handle>>
               ELSE src' = [src EXCEPT ![k] = "absent"] /\ Advance
-           /\ UNCHANGED <<op, n, shape, fault, dst, outside, touched>>
+           /\ UNCHANGED <<op, n, shape, fault, dst, outside, touched, dest>>
 
 Next == Validate \/ COpen \/ CCreate \/ CWrite \/ CClose \/ CCleanup \/ MRename \/ RUnlink
 Spec == Init /\ [][Next]_vars /\ WF_vars(Next)
@@ -101,6 +102,7 @@ SuccessPost == ret = "ok" =>
                  /\ op = "copy" => \A i \in 0..n : src[i] = "full"
                  /\ op \in {"move", "remove"} => \A i \in 0..n : src[i] = "absent"
 FailureReported == (ret = "ok") => fault.at = -1
+DestFileRefused == (dest = "file" /\ op # "remove") => (ret # "ok" /\ \A i \in 0..n : dst[i] = "absent" /\ src[i] = "full")
 Confined == ~touched /\ \A i \in 1..n : outside[i] \in {"full", "none"}
 Terminates == <>(stage = "done")
 =============================================================================
